@@ -1,11 +1,563 @@
-use vcommon::*;
+//! C24 — PoA produces consecutive, sealed, time-ordered blocks.
+//!
+//! Drives the real `fuel_core_poa::new_service` (MainTask + SyncTask under the real
+//! `ServiceRunner`) with harness-implemented ports on a paused tokio clock. Every port
+//! call/return is recorded in an `EventLog`; the oracle (`oracle::judge`) decides the
+//! property offline over that history.
+
+mod oracle;
+mod world;
+
+use fuel_core_poa::{
+    Config,
+    Trigger,
+    new_service,
+    service::Mode,
+};
+use fuel_core_services::Service as _;
+use fuel_core_types::{
+    blockchain::header::BlockHeader,
+    signer::SignMode,
+    tai64::Tai64,
+};
+use serde_json::{
+    Value,
+    json,
+};
+use std::{
+    collections::HashSet,
+    sync::Arc,
+    time::Duration,
+};
+use vcommon::{
+    rand::Rng,
+    *,
+};
+use world::*;
+
+#[derive(Clone, Debug)]
+pub enum StartSel {
+    None,
+    TipPlus(u64),
+    TipMinus(u64),
+    ClockNow,
+    FarFuture,
+}
+
+#[derive(Clone, Debug)]
+pub enum Step {
+    Sleep(u64),
+    Yield(u8),
+    TxNotify,
+    Manual {
+        start: StartSel,
+        with_txs: bool,
+        n: u32,
+        wait: bool,
+    },
+    NetBlocks(u8),
+    DupStream,
+    Peers(usize),
+    Recon(ReconMode),
+    Unreconciled {
+        fresh: u8,
+        stale: u8,
+    },
+    Arm(&'static str, Fault),
+    ClockJump(i64),
+    ClockFreeze(bool),
+    Ready,
+}
+
+#[derive(Clone, Debug)]
+pub struct Schedule {
+    pub n_steps: usize,
+    pub cfg: Cfg,
+    pub steps: Vec<Step>,
+}
+
+const PORTS: [&str; 10] = [
+    "predef",
+    "produce",
+    "produce_predef",
+    "seal",
+    "avail",
+    "commit",
+    "exec_commit",
+    "db_height",
+    "leader_state",
+    "release",
+];
+
+fn gen_schedule<R: Rng>(rng: &mut R, n_steps: usize) -> Schedule {
+    let trigger = match rng.gen_range(0..100) {
+        0..=39 => TriggerSel::Interval(*pick(rng, &[10, 100, 1000, 2000])),
+        40..=64 => TriggerSel::Instant,
+        65..=77 => TriggerSel::Never,
+        _ => TriggerSel::Open(*pick(rng, &[50, 1000])),
+    };
+    let (min_peers, tus_ms) = match rng.gen_range(0..100) {
+        0..=34 => (0usize, 0u64),
+        35..=69 => (0, *pick(rng, &[30, 1000])),
+        _ => (rng.gen_range(1..=2), *pick(rng, &[30, 1000])),
+    };
+    let init_h = *pick(rng, &[0u32, 1, 7]);
+    let predef: Vec<u32> = match rng.gen_range(0..100) {
+        0..=64 => vec![],
+        65..=76 => vec![init_h + 1],
+        77..=88 => vec![init_h + 2, init_h + 3],
+        _ => vec![init_h + 4],
+    };
+    let cfg = Cfg {
+        trigger,
+        min_peers,
+        tus_ms,
+        init_h,
+        init_time: 1_000_000,
+        clock_skew: *pick(rng, &[0i64, 0, 0, 5, 100, -50]),
+        ready_at_start: chance(rng, 85),
+        predef,
+        production_timeout_ms: 3000,
+        fault_pct: *pick(rng, &[0u32, 0, 3, 10, 25]),
+        yield_max: *pick(rng, &[0u8, 1, 3]),
+    };
+    let unit = match trigger {
+        TriggerSel::Interval(ms) | TriggerSel::Open(ms) => ms,
+        _ => 100,
+    };
+    let mut far_future_left = 2;
+    let mut steps = Vec::new();
+    if min_peers > 0 {
+        steps.push(Step::Peers(min_peers));
+    }
+    for _ in 0..n_steps {
+        let st = match rng.gen_range(0..100) {
+            0..=23 => Step::Sleep(*pick(
+                rng,
+                &[
+                    1,
+                    unit / 2,
+                    unit,
+                    unit + 1,
+                    2 * unit + 1,
+                    5 * unit,
+                    (30 * unit).min(1000),
+                    (60 * unit).min(4000),
+                ],
+            )),
+            24..=31 => Step::Yield(rng.gen_range(1..6)),
+            32..=43 => Step::TxNotify,
+            44..=61 => {
+                let start = match rng.gen_range(0..100) {
+                    0..=39 => StartSel::None,
+                    40..=57 => StartSel::TipPlus(*pick(rng, &[0, 0, 1, 10])),
+                    58..=75 => StartSel::TipMinus(*pick(rng, &[1, 1, 30])),
+                    76..=87 => StartSel::ClockNow,
+                    _ => {
+                        if far_future_left > 0 {
+                            far_future_left -= 1;
+                            StartSel::FarFuture
+                        } else {
+                            StartSel::None
+                        }
+                    }
+                };
+                Step::Manual {
+                    start,
+                    with_txs: chance(rng, 25),
+                    n: rng.gen_range(1..=3),
+                    wait: chance(rng, 60),
+                }
+            }
+            62..=69 => Step::NetBlocks(rng.gen_range(1..=2)),
+            70..=71 => Step::DupStream,
+            72..=75 => Step::Peers(rng.gen_range(0..=3)),
+            76..=80 => Step::Recon(match rng.gen_range(0..10) {
+                0..=4 => ReconMode::Leader,
+                5..=7 => ReconMode::Follower,
+                _ => ReconMode::Err,
+            }),
+            81..=85 => Step::Unreconciled {
+                fresh: rng.gen_range(1..=3),
+                stale: rng.gen_range(0..=2),
+            },
+            86..=94 => {
+                let port = *pick(rng, &PORTS);
+                let fault = match port {
+                    "produce" => match rng.gen_range(0..4) {
+                        0 => Fault::Timeout,
+                        1 => Fault::Slow(*pick(rng, &[unit / 2 + 1, 2 * unit, 1000])),
+                        _ => Fault::Err,
+                    },
+                    "commit" | "exec_commit" => {
+                        if chance(rng, 25) {
+                            Fault::LostAck
+                        } else {
+                            Fault::Err
+                        }
+                    }
+                    "db_height" => match rng.gen_range(0..3) {
+                        0 => Fault::Err,
+                        1 => Fault::None_,
+                        _ => Fault::Stale,
+                    },
+                    _ => Fault::Err,
+                };
+                Step::Arm(port, fault)
+            }
+            95..=96 => Step::ClockJump(*pick(rng, &[-100i64, -3, 2, 50])),
+            97 => Step::ClockFreeze(chance(rng, 60)),
+            _ => Step::Ready,
+        };
+        steps.push(st);
+    }
+    steps.push(Step::Ready);
+    Schedule { n_steps, cfg, steps }
+}
+
+pub struct RunOut {
+    pub events: Vec<Value>,
+    pub problems: Vec<String>,
+}
+
+async fn drive(sch: &Schedule, port_seed: u64) -> RunOut {
+    let cfg = sch.cfg.clone();
+    let w = World::new(cfg.clone(), port_seed);
+    let mut problems = Vec::new();
+    let trigger = match cfg.trigger {
+        TriggerSel::Instant => Trigger::Instant,
+        TriggerSel::Never => Trigger::Never,
+        TriggerSel::Interval(ms) => Trigger::Interval {
+            block_time: Duration::from_millis(ms),
+        },
+        TriggerSel::Open(ms) => Trigger::Open {
+            period: Duration::from_millis(ms),
+        },
+    };
+    let config = Config {
+        trigger,
+        signer: SignMode::Unavailable,
+        metrics: false,
+        min_connected_reserved_peers: cfg.min_peers,
+        time_until_synced: Duration::from_millis(cfg.tus_ms),
+        production_timeout: Duration::from_millis(cfg.production_timeout_ms),
+        chain_id: Default::default(),
+    };
+    let last_block = BlockHeader::new_block(cfg.init_h.into(), Tai64(cfg.init_time));
+    w.ev(
+        "init",
+        json!({"h": cfg.init_h, "time": cfg.init_time, "trigger": format!("{:?}", cfg.trigger),
+               "min_peers": cfg.min_peers, "tus_ms": cfg.tus_ms, "predef": cfg.predef,
+               "clock_skew": cfg.clock_skew, "fault_pct": cfg.fault_pct, "yield_max": cfg.yield_max}),
+    );
+    let service = new_service(
+        &last_block,
+        config,
+        TxPoolPort(w.clone()),
+        ProducerPort(w.clone()),
+        ImporterPort(w.clone()),
+        P2p(w.clone()),
+        Arc::new(SignerPort(w.clone())),
+        PredefPort(w.clone()),
+        ClockPort(w.clone()),
+        ReadyPort(w.ready.subscribe()),
+        ReconPort(w.clone()),
+    );
+    match tokio::time::timeout(Duration::from_secs(600), service.start_and_await()).await {
+        Ok(Ok(s)) => {
+            w.ev("svc.started", json!({"state": format!("{s:?}")}));
+        }
+        other => {
+            problems.push(format!("service did not start: {other:?}"));
+            return RunOut {
+                events: w.log.snapshot(),
+                problems,
+            };
+        }
+    }
+    let mut manual_id = 0u64;
+    let mut manuals: Vec<tokio::task::JoinHandle<()>> = Vec::new();
+    for (i, st) in sch.steps.iter().enumerate() {
+        w.ev("step", json!({"i": i, "step": format!("{st:?}")}));
+        match st {
+            Step::Sleep(ms) => tokio::time::sleep(Duration::from_millis(*ms)).await,
+            Step::Yield(n) => {
+                for _ in 0..*n {
+                    tokio::task::yield_now().await;
+                }
+            }
+            Step::TxNotify => {
+                let _ = w.txs.send(());
+            }
+            Step::Manual {
+                start,
+                with_txs,
+                n,
+                wait,
+            } => {
+                let start_time = w.resolve_start(start);
+                manual_id += 1;
+                let id = manual_id;
+                let shared = service.shared.clone();
+                let w2 = w.clone();
+                let (with_txs, n) = (*with_txs, *n);
+                let mut h = tokio::spawn(async move {
+                    w2.ev(
+                        "manual.call",
+                        json!({"id": id, "start": start_time, "n": if with_txs {1} else {n}, "with_txs": with_txs}),
+                    );
+                    let mode = if with_txs {
+                        Mode::BlockWithTransactions(vec![])
+                    } else {
+                        Mode::Blocks { number_of_blocks: n }
+                    };
+                    let r = shared.manually_produce_block(start_time.map(Tai64), mode).await;
+                    w2.ev(
+                        "manual.ret",
+                        json!({"id": id, "ok": r.is_ok(), "err": r.err().map(|e| e.to_string())}),
+                    );
+                });
+                if *wait {
+                    if tokio::time::timeout(Duration::from_secs(30), &mut h).await.is_err() {
+                        manuals.push(h);
+                    }
+                } else {
+                    manuals.push(h);
+                }
+            }
+            Step::NetBlocks(k) => {
+                for _ in 0..*k {
+                    w.push_net_block();
+                }
+            }
+            Step::DupStream => w.push_dup(),
+            Step::Peers(n) => {
+                w.ev("peers", json!({"n": n}));
+                let _ = w.peers_tx.send(*n);
+            }
+            Step::Recon(m) => w.set_recon(*m),
+            Step::Unreconciled { fresh, stale } => w.set_unreconciled(*fresh, *stale),
+            Step::Arm(port, f) => w.arm(port, *f),
+            Step::ClockJump(d) => w.clock_jump(*d),
+            Step::ClockFreeze(on) => w.clock_freeze(*on),
+            Step::Ready => {
+                w.ev("ready", json!({}));
+                let _ = w.ready.send(true);
+            }
+        }
+        // seeded yields between the harness's own steps
+        let k = w.rand(3);
+        for _ in 0..k {
+            tokio::task::yield_now().await;
+        }
+    }
+    // settle, then stop
+    let unit = match cfg.trigger {
+        TriggerSel::Interval(ms) | TriggerSel::Open(ms) => ms,
+        _ => 100,
+    };
+    tokio::time::sleep(Duration::from_millis((100 * unit).min(6000))).await;
+    w.ev("svc.stop.call", json!({}));
+    match tokio::time::timeout(Duration::from_secs(3600), service.stop_and_await()).await {
+        Ok(r) => {
+            w.ev("svc.stop.ret", json!({"state": format!("{r:?}")}));
+        }
+        Err(_) => problems.push("service did not stop within 1 h of virtual time".into()),
+    }
+    for mut h in manuals {
+        if tokio::time::timeout(Duration::from_secs(60), &mut h).await.is_err() {
+            h.abort();
+            w.ev("manual.abandoned", json!({}));
+        }
+    }
+    drop(service);
+    RunOut {
+        events: w.log.snapshot(),
+        problems,
+    }
+}
+
+/// `ServiceRunner::new` (PoA + its sync task) registers new counters in fuel-core's
+/// process-wide metrics registry and text-encodes the whole registry to do so; the cost grows
+/// with every service ever created. Metrics are not part of the property: the harness
+/// empties that registry between schedules (nothing of /repo is modified).
+fn reset_metrics_registry() {
+    *fuel_core_metrics::global_registry().registry.lock() = Default::default();
+}
+
+fn run_schedule(sch: &Schedule, port_seed: u64) -> Result<RunOut, String> {
+    reset_metrics_registry();
+    let rt = tokio::runtime::Builder::new_current_thread()
+        .enable_time()
+        .start_paused(true)
+        .build()
+        .map_err(|e| e.to_string())?;
+    let out = catch(|| rt.block_on(drive(sch, port_seed)));
+    drop(rt);
+    out
+}
+
+fn schedule_json(sch: &Schedule) -> Value {
+    json!({
+        "cfg": format!("{:?}", sch.cfg),
+        "steps": sch.steps.iter().map(|s| format!("{s:?}")).collect::<Vec<_>>(),
+    })
+}
+
+#[allow(clippy::too_many_arguments)]
+fn account(
+    report: &Report,
+    args: &Args,
+    sch: &Schedule,
+    out: &RunOut,
+    shard: usize,
+    shard_seed: u64,
+    iteration: u64,
+    selftest: u64,
+) {
+    report.eval();
+    for p in &out.problems {
+        report.count("harness.problem");
+        report.inconclusive(format!("shard {shard} iteration {iteration}: {p}"));
+    }
+    let mut events = out.events.clone();
+    if selftest != 0 && !oracle::perturb(&mut events, selftest) {
+        report.count("selftest.not_applicable");
+        return;
+    }
+    let verdict = oracle::judge(&events, &sch.cfg);
+    for (k, n) in &verdict.stats {
+        report.add(k, *n);
+    }
+    report.count(&format!("schedules.trigger.{}", sch.cfg.trigger.name()));
+    if verdict.nontrivial {
+        report.distinct_hash(verdict.shape);
+    }
+    if report.wants_sample() && verdict.nontrivial {
+        report.sample(json!({
+            "schedule": schedule_json(sch),
+            "port_history_head": verdict.summary.iter().take(60).collect::<Vec<_>>(),
+        }));
+    }
+    let mut seen = HashSet::new();
+    for (sig, detail) in &verdict.violations {
+        if !seen.insert(sig.clone()) {
+            continue;
+        }
+        let sig = if selftest != 0 { format!("selftest:{sig}") } else { sig.clone() };
+        let history: Vec<String> = if report.violation_count() < 40 {
+            verdict.summary.iter().take(600).cloned().collect()
+        } else {
+            vec![]
+        };
+        report.violation(
+            sig,
+            format!("{detail}; cfg={:?}", sch.cfg),
+            json!({"seed": args.seed, "shard": shard, "shard_seed": shard_seed, "iteration": iteration,
+                   "n_steps": sch.n_steps, "ops": schedule_json(sch), "history": history}),
+        );
+    }
+}
+
+fn c24(args: &Args, report: &Report) {
+    let selftest: u64 = args
+        .extra
+        .get("selftest")
+        .and_then(|v| v.parse().ok())
+        .unwrap_or(0);
+    let n_steps_q = 40usize;
+    if let Some(rep) = read_replay(args) {
+        let shard_seed = rep.get("shard_seed").and_then(|v| v.as_u64()).unwrap_or(0);
+        let iteration = rep.get("iteration").and_then(|v| v.as_u64()).unwrap_or(0);
+        let shard = rep.get("shard").and_then(|v| v.as_u64()).unwrap_or(0) as usize;
+        let n_steps = rep.get("n_steps").and_then(|v| v.as_u64()).unwrap_or(n_steps_q as u64) as usize;
+        let mut rng = rng_for(shard_seed, &[iteration, 1]);
+        let sch = gen_schedule(&mut rng, n_steps);
+        match run_schedule(&sch, mix(shard_seed, &[iteration, 2])) {
+            Ok(out) => account(report, args, &sch, &out, shard, shard_seed, iteration, 0),
+            Err(p) => report.inconclusive(format!("replay panicked in harness: {p}")),
+        }
+        return;
+    }
+    let shards = 16usize;
+    let per_shard: u64 = if selftest != 0 { 40 } else { args.by_tier(500, 3000) };
+    {
+        let report = report.clone();
+        let args2 = args.clone();
+        run_shards(&report.clone(), args, shards, move |shard, shard_seed| {
+            for it in 0..per_shard {
+                let mut rng = rng_for(shard_seed, &[it, 1]);
+                // thorough: also long schedules
+                let n_steps = if args2.is_thorough() && it % 4 == 0 { 160 } else { n_steps_q };
+                let sch = gen_schedule(&mut rng, n_steps);
+                match run_schedule(&sch, mix(shard_seed, &[it, 2])) {
+                    Ok(out) => account(&report, &args2, &sch, &out, shard, shard_seed, it, selftest),
+                    Err(p) => report.inconclusive(format!(
+                        "schedule shard {shard} iteration {it} panicked in harness: {p}"
+                    )),
+                }
+            }
+        });
+    }
+    if selftest == 0 {
+        let k = args.by_tier(1u64, 8);
+        report.require("commit.ok", 8_000 * k);
+        report.require("commit.failed", 300 * k);
+        report.require("attempt.failed.production", 300 * k);
+        report.require("attempt.failed.production_timeout", 30 * k);
+        report.require("attempt.failed.seal", 100 * k);
+        report.require("attempt.rejected_before_producer", 300 * k);
+        report.require("height_check.exact", 8_000 * k);
+        report.require("height_check.envelope", 50 * k);
+        report.require("timestamp_check.judged", 8_000 * k);
+        report.require("seal_check.judged", 8_000 * k);
+        report.require("interval.pairs_judged", 1_000 * k);
+        report.require("kind.trigger", 2_000 * k);
+        report.require("kind.manual", 2_000 * k);
+        report.require("kind.predefined", 200 * k);
+        report.require("manual.explicit_start_rejected_or_failed", 300 * k);
+        report.require("reconcile.import_ok", 300 * k);
+        report.require("reconcile.import_failed", 30 * k);
+        report.require("net_blocks", 1_000 * k);
+        report.require("after_failure.next_attempt_same_height", 300 * k);
+        report.require("leader_state.follower", 200 * k);
+        report.require("db_height.stale", 20 * k);
+    }
+}
 
 fn main() {
     let args = Args::parse();
     install_quiet_panic_hook();
     let report = Report::new(&args.property);
+    let rule = "schedule = PoA config (trigger Instant/Never/Interval/Open, sync settings, start height, predefined \
+        heights, clock skew, per-call fault rate, port yield count) + 40 seeded steps from {virtual sleep, yields, \
+        txpool notification, manual production (no/explicit past/equal/future/far-future start time; Blocks{1..3} or \
+        BlockWithTransactions; awaited or racing), 1-2 network blocks, duplicate stream entry, peer count, \
+        reconciliation Leader/Follower/Err, UnreconciledBlocks(stale+fresh), armed one-shot fault on one of 9 ports \
+        (err/slow/timeout/lost-ack/stale height), clock jump/freeze, ready signal}; executed against the real \
+        fuel_core_poa service on a paused clock. A schedule counts as distinct/non-trivial when it had >=2 successful \
+        commits and >=1 failed attempt or network/reconciliation import; the key is the hash of the ordered \
+        port-call outcomes with heights relative to the start height.";
+    let assumptions = [
+        "ports deliver valid chain continuations: network, reconciliation and predefined blocks extend the mock DB tip with non-decreasing timestamps; the mock importer rejects any height other than tip+1 (as the real importer does)",
+        "heights are judged against what the service was told: start header, own successful commits, successful reconciliation imports, latest_block_height() replies (must-know) and headers pushed on block_stream (may-know; envelope when racing, exact otherwise)",
+        "block-time spacing is judged only for trigger-produced blocks under Trigger::Interval whose predecessor was a successful local commit with no foreign block delivered in between",
+        "reconciliation imports issued after a failed import in the same batch are not judged for height contiguity (counted as excluded)",
+    ];
+    {
+        let report = report.clone();
+        let args = args.clone();
+        let limit = if args.is_thorough() { 1500 } else { 110 };
+        std::thread::spawn(move || {
+            std::thread::sleep(Duration::from_secs(limit));
+            report.inconclusive(format!("outer wall-clock watchdog fired after {limit}s"));
+            report.finish(&args, "exploration", "watchdog", false, &[]);
+            std::process::exit(0);
+        });
+    }
     match args.property.as_str() {
+        "C24" => c24(&args, &report),
         other => report.inconclusive(format!("property {other} not implemented in this monitor")),
     }
-    report.finish(&args, "exploration", "", false, &[]);
+    report.finish(&args, "exploration", rule, false, &assumptions);
 }
